@@ -103,8 +103,12 @@ def run_parts(ctx, design=True):
         _validate(ctx, out, "random", timeout=3000, max_failures=min(n + 2, 45))
     ctx.assumptions.append(
         "NFSv4.1: byte contents of READ/WRITE, attribute encoding, READDIR/LINK/CREATE and backchannel operations are "
-        "not modelled; a request 'differs in content' when its sequence of operation types differs; the same "
-        "lock-owner locking one file through two different open-owners is only exercised by the scripted histories")
+        "not modelled; a request 'differs in content' when its sequence of operation types differs (a request with the "
+        "same slot, sequence ID and operation types but other arguments may get the cached reply or be rejected, and "
+        "must have no side effects); the same lock-owner locking one file through two different open-owners is only "
+        "exercised by the scripted histories; the byte at offset 2^64-1 is not part of the reference's lock table "
+        "(a server may refuse ranges that start there with any error): who was granted it is kept as ghost state and "
+        "two owners must not both be granted it unless both locks are shared")
     return RULE
 
 
